@@ -104,6 +104,12 @@ def gen_cases(tier, rng):
             differ = differs[rng.randrange(3)]
             ex = extras[rng.randrange(len(extras))]
             add(differ, ba, bb, la, ha, lb, hb, ex, rng.choice(serve_kinds), rng.choice(serve_kinds))
+    # 2b. the same URL on both sides: each side's hash is checked on its own
+    for (la, ha), (lb, hb) in itertools.product(hash_variants(sc.HTML_A), hash_variants(sc.HTML_A)):
+        url = 'http://site.test/same'
+        raw = [('a', url), ('b', url)] + ([('a_hash', ha)] if ha is not None else []) + ([('b_hash', hb)] if hb is not None else [])
+        cases.append({'differ': differs[len(cases) % 3], 'raw_query': raw, 'upstream': {url: sc.ok_up(sc.HTML_A, 'text/html; charset=utf-8')}, 'files': {},
+                      'differ_mode': 'real', 'plain_utf8': True, 'tolerate_differ_error': False, 'labels': ('same-url-' + la, lb)})
     # 3. each wrong-hash class on a memento response and on a file, exhaustively (small)
     for kind in serve_kinds:
         for (la, ha) in hash_variants(sc.HTML_A)[2:]:
